@@ -191,8 +191,49 @@ class _SplitConditional(ast.NodeTransformer):
         return node
 
 
+class _DefaultThenOverride(ast.NodeTransformer):
+    """x = D; if c: x = A      ->      if c: x = A  else: x = D
+    for a plain default D (constant, name, attribute chain) directly in front of a one-armed if
+    whose only statement assigns x, with neither c nor A reading x."""
+
+    def _block(self, stmts: List[ast.stmt]) -> List[ast.stmt]:
+        out: List[ast.stmt] = []
+        i = 0
+        while i < len(stmts):
+            st = stmts[i]
+            nxt = stmts[i + 1] if i + 1 < len(stmts) else None
+            if isinstance(st, ast.Assign) and len(st.targets) == 1 and isinstance(st.targets[0], ast.Name) \
+                    and isinstance(nxt, ast.If) and not nxt.orelse and len(nxt.body) == 1 \
+                    and isinstance(nxt.body[0], ast.Assign) and len(nxt.body[0].targets) == 1 \
+                    and isinstance(nxt.body[0].targets[0], ast.Name) \
+                    and nxt.body[0].targets[0].id == st.targets[0].id:
+                name = st.targets[0].id
+                d = st.value
+                plain = isinstance(d, (ast.Constant, ast.Name)) or (
+                    isinstance(d, ast.Attribute) and all(
+                        isinstance(y, (ast.Attribute, ast.Name, ast.Load)) for y in ast.walk(d)))
+                if plain and name not in _names_loaded(nxt.test) and \
+                        name not in _names_loaded(nxt.body[0].value) and name not in _names_loaded(d):
+                    nxt.orelse = [st]
+                    out.append(nxt)
+                    i += 2
+                    continue
+            out.append(st)
+            i += 1
+        return out
+
+    def generic_visit(self, node):
+        super().generic_visit(node)
+        for field in ("body", "orelse", "finalbody"):
+            b = getattr(node, field, None)
+            if isinstance(b, list) and b and isinstance(b[0], ast.stmt):
+                setattr(node, field, self._block(b))
+        return node
+
+
 def split_conditional_assignments(tree: ast.Module) -> ast.Module:
     tree = _SplitConditional().visit(tree)
+    tree = _DefaultThenOverride().visit(tree)
     ast.fix_missing_locations(tree)
     return tree
 
@@ -366,9 +407,51 @@ def _dict_kwargs(fn: ast.FunctionDef) -> None:
     ast.fix_missing_locations(fn)
 
 
+class _SplitParallel(ast.NodeTransformer):
+    """a, b = (x, y)      ->      a = x; b = y
+    when no later value reads what an earlier target binds (so `a, b = b, a` stays)."""
+
+    def _block(self, stmts: List[ast.stmt]) -> List[ast.stmt]:
+        out: List[ast.stmt] = []
+        for st in stmts:
+            if isinstance(st, ast.Assign) and len(st.targets) == 1 \
+                    and isinstance(st.targets[0], (ast.Tuple, ast.List)) \
+                    and isinstance(st.value, (ast.Tuple, ast.List)) \
+                    and len(st.targets[0].elts) == len(st.value.elts) \
+                    and not any(isinstance(x, ast.Starred) for x in st.targets[0].elts + st.value.elts):
+                tg, vs = st.targets[0].elts, st.value.elts
+                bound: Set[str] = set()
+                ok = True
+                for t_, v_ in zip(tg, vs):
+                    reads = _chains_loaded(v_) | _names_loaded(v_)
+                    if reads & bound:
+                        ok = False
+                        break
+                    bound |= _stores(t_) | {x.id for x in ast.walk(t_) if isinstance(x, ast.Name)}
+                    c_ = _self_chain(t_) if isinstance(t_, ast.Attribute) else None
+                    if c_:
+                        bound.add(c_)
+                if ok:
+                    for t_, v_ in zip(tg, vs):
+                        new = ast.Assign(targets=[t_], value=v_)
+                        out.append(ast.copy_location(new, st))
+                    continue
+            out.append(st)
+        return out
+
+    def generic_visit(self, node):
+        super().generic_visit(node)
+        for field in ("body", "orelse", "finalbody"):
+            b = getattr(node, field, None)
+            if isinstance(b, list) and b and isinstance(b[0], ast.stmt):
+                setattr(node, field, self._block(b))
+        return node
+
+
 def canonicalise(tree: ast.Module, aliases: bool = True) -> ast.Module:
     tree = split_conditional_assignments(tree)
     tree = _UnpackIndexed().visit(tree)
+    tree = _SplitParallel().visit(tree)
     tree = _FuseZipOfMap().visit(tree)
     if aliases:
         for x in ast.walk(tree):
